@@ -2,7 +2,7 @@
 # usage: try_batch.sh "<seeded> <prop>" ...   prints one line per mutant: detected / MISSED
 for pair in "$@"; do
   set -- $pair
-  out=$(TAIL=400 /verif/tools/try_seeded.sh $1 $2 2>&1)
+  out=$(TAIL=400 /verif/tools/${TRY:-try_seeded_wt.sh} $1 $2 2>&1)
   if echo "$out" | grep -q "^VIOLATION"; then
     echo "$1 via $2: detected ($(echo "$out" | grep -c '^VIOLATION') groups; $(echo "$out" | grep '^  \[' | head -1 | cut -c1-140))"
   else
